@@ -35,47 +35,61 @@ def cases(draw, tier):
     dofiles = {}
     errfiles = {}
     expect = {}
+    d16_moved = False
     for i, t in enumerate(targets):
-        lines = []
-        body = []
-        seq = 0
         deps = [targets[j] for j in range(i) if draw(st.integers(0, 99)) < 45]
-        nchunks = draw(st.integers(1, 3))
-        dep_at = draw(st.integers(0, nchunks))
-        partial_pending = None
-        for c in range(nchunks + 1):
+        # the script's stderr is one byte string of numbered lines, written in several pieces; a piece boundary may
+        # fall on a line boundary or anywhere inside a line, and one line may be cut into up to five pieces
+        lines = [draw(payloads()) for _ in range(draw(st.integers(0, 7)))]
+        full = "".join("L %s %d %s\n" % (t, seq, pl) for seq, pl in enumerate(lines))
+        cuts = set()
+        pos = 0
+        for seq, pl in enumerate(lines):
+            ln = len("L %s %d %s\n" % (t, seq, pl))
+            if draw(st.integers(0, 99)) < 30:
+                # cut inside this line: 1-4 places, biased to the ends (inside the prefix, inside a short payload,
+                # right before the newline)
+                for _ in range(draw(st.integers(1, 4))):
+                    where = draw(st.integers(0, 3))
+                    if where == 0:
+                        off = draw(st.integers(1, min(ln - 1, 6)))
+                    elif where == 1:
+                        off = ln - 1 - draw(st.integers(0, min(ln - 2, 8)))
+                    else:
+                        off = draw(st.integers(1, ln - 1))
+                    cuts.add(pos + off)
+            pos += ln
+            if draw(st.integers(0, 99)) < 45:
+                cuts.add(pos)
+        pieces = []
+        prev = 0
+        for c in sorted(x for x in cuts if 0 < x < len(full)):
+            pieces.append(full[prev:c])
+            prev = c
+        pieces.append(full[prev:])
+        if not full:
+            pieces = []
+        dep_at = draw(st.integers(0, len(pieces)))
+        # known finding D16 (redo-ifchange while a stderr line is unterminated): keep that shape to a small share of
+        # the cases so that the search is not dominated by it; the others move the call to a line boundary
+        if deps and 0 < dep_at <= len(pieces) and not pieces[dep_at - 1].endswith("\n") \
+                and draw(st.integers(0, 99)) >= 12:
+            while 0 < dep_at and not pieces[dep_at - 1].endswith("\n"):
+                dep_at -= 1
+            d16_moved = True
+        body = []
+        for c, piece in enumerate(pieces):
             if c == dep_at and deps:
                 body.append(["dep", 1, deps])
-            if c == nchunks:
-                break
-            text = ""
-            if partial_pending is not None:
-                text += partial_pending[1] + "\n"
-                partial_pending = None
-            for _ in range(draw(st.integers(0, 4))):
-                pl = draw(payloads())
-                lines.append(pl)
-                text += "L %s %d %s\n" % (t, seq, pl)
-                seq += 1
-            if draw(st.integers(0, 99)) < 25:
-                # a partial line, completed by the next chunk (possibly after a redo-ifchange in between)
-                pl = draw(payloads())
-                cut = draw(st.integers(0, min(len(pl), 10)))
-                full = "L %s %d %s" % (t, seq, pl)
-                k = len(full) - (len(pl) - cut)
-                text += full[:k]
-                partial_pending = (full[:k], full[k:])
-                lines.append(pl)
-                seq += 1
             name = "err.%s.%d" % (t, c)
-            errfiles[name] = text
+            errfiles[name] = piece
             body.append(["err", name])
-            if draw(st.integers(0, 99)) < 20:
-                body.append(["sleep", draw(st.sampled_from([1, 5, 20]))])
-        if partial_pending is not None:
-            name = "err.%s.end" % t
-            errfiles[name] = partial_pending[1] + "\n"
-            body.append(["err", name])
+            mid_line = not piece.endswith("\n")
+            # pauses let the log follower (which polls every 10 ms, backing off while idle) read a piece on its own
+            if draw(st.integers(0, 99)) < (60 if mid_line else 15):
+                body.append(["sleep", draw(st.sampled_from([1, 5, 20, 35, 60]))])
+        if dep_at >= len(pieces) and deps:
+            body.append(["dep", 1, deps])
         body.append(["out", "stdout"])
         dofiles[t + ".do"] = {"v": 1, "body": body}
         expect[t] = lines
@@ -84,7 +98,7 @@ def cases(draw, tier):
     proj = {"dirs": [""], "sources": [], "dofiles": dofiles, "targets": targets, "watch": [], "errfiles": errfiles}
     cfg = {"log": 1, "keep_going": 0, "jobs": draw(st.sampled_from([1, 1, 2, 3, 4])),
            "roots": sorted(set([top] + [targets[draw(st.integers(0, nt - 1))] for _ in range(draw(st.integers(0, 2)))]))}
-    return {"project": proj, "cfg": cfg, "ops": [], "expect": expect}
+    return {"project": proj, "cfg": cfg, "ops": [], "expect": expect, "d16_excluded": d16_moved}
 
 
 def parse_log(text):
@@ -177,6 +191,28 @@ def partial_across_dep(case, executed):
     return False
 
 
+def max_pieces_per_line(case, executed):
+    """Largest number of separate writes that one stderr line of an executed script is made of."""
+    ef = case["project"]["errfiles"]
+    best = 0
+    for dof, spec in case["project"]["dofiles"].items():
+        if dof[:-3] not in executed:
+            continue
+        cur = 0
+        for stt in spec["body"]:
+            if stt[0] != "err" or not ef[stt[1]]:
+                continue
+            txt = ef[stt[1]]
+            segs = txt.split("\n")
+            # first segment continues the pending line
+            cur += 1
+            best = max(best, cur)
+            if len(segs) > 1:
+                cur = 1 if segs[-1] != "" else 0
+                best = max(best, cur)
+    return best
+
+
 def run_case(case, tier):
     out = hist.Outcome()
     disk = hist.P.Disk(hist.scratch_dir("c18"))
@@ -219,11 +255,15 @@ def run_case(case, tier):
         if any(k.endswith(".end") or (v and not v.endswith("\n")) for k, v in case["project"]["errfiles"].items()):
             out.events["c18:partial-line"] += 1
             out.nontrivial = True
+        if max_pieces_per_line(case, set(ex)) >= 3:
+            out.events["c18:line-written-in>=3-pieces"] += 1
         if nlines >= 2 and len(set(ex)) >= 2:
             out.nontrivial = True
         if any(len(p) > 4000 for t in set(ex) for p in expect[t]):
             out.events["c18:line>4KiB"] += 1
         out.events["c18:lines-checked"] += nlines
+        if case.get("d16_excluded"):
+            out.events["c18:excluded-by-construction(D16 shape moved to a line boundary)"] += 1
         pad = partial_across_dep(case, set(ex))
         if pad:
             out.events["c18:partial-line-pending-across-redo-ifchange"] += 1
